@@ -113,6 +113,9 @@ class Run:
         self.lean = {'obligations': 0, 'discharged': 0, 'theorems': [], 'build_ok': None, 'checker_cmd': ''}
         self.rule = ''
         self.assumptions = []
+        import glob
+        for f in glob.glob(os.path.join(VERIF, 'replays', f'{pid}-{seed}-*.json')):
+            os.remove(f)
 
     # ---- coverage ----
     def case(self, desc, nontrivial=True, sample=None, branch=None):
